@@ -4,6 +4,7 @@
 //
 // stdin : one case per line   "<id> <host> <hex of program text, lines separated by \n>"
 //         host = punch | print | rates | calc | punchhp (USER_PUNCH with -high_precision true)
+//              | multi: programs "P1\n@@\nP2…" as USER_PUNCH 1..k + SELECTED_OUTPUT 1..k in ONE simulation (same interpreter)
 //              | hist: program text "A\n@@\nB": simulation 1 defines USER_PUNCH A and SOLUTION 1 (row 1), simulation 2
 //                redefines USER_PUNCH as B and defines SOLUTION 2 (row 2); rows are separated by the item "/"
 // stdout: one line per case   "R <id> <host> <status> <items...> | <hex of error text>"
@@ -65,6 +66,19 @@ static std::string build_input(const std::string& host, const std::string& prog)
     in = "SOLUTION 1\nSELECTED_OUTPUT 1\n -reset false\n";
     if (host == "punchhp") in += " -high_precision true\n";
     in += "USER_PUNCH 1\n" + prog + "\nEND\n";
+  } else if (host == "multi") {
+    // k programs "P1\n@@\nP2..." as USER_PUNCH 1..k with SELECTED_OUTPUT 1..k, all run by the one interpreter in the same
+    // calculation (one row each, in user-number order)
+    std::string rest = prog; int u = 1;
+    in = "SOLUTION 1\n";
+    for (;;) {
+      size_t k = rest.find("\n@@\n");
+      std::string one = k == std::string::npos ? rest : rest.substr(0, k);
+      in += "SELECTED_OUTPUT " + std::to_string(u) + "\n -reset false\nUSER_PUNCH " + std::to_string(u) + "\n" + one + "\n";
+      if (k == std::string::npos) break;
+      rest = rest.substr(k + 4); ++u;
+    }
+    in += "END\n";
   } else if (host == "hist") {
     size_t k = prog.find("\n@@\n");
     std::string a = k == std::string::npos ? prog : prog.substr(0, k), b = k == std::string::npos ? prog : prog.substr(k + 4);
@@ -108,7 +122,7 @@ static std::string run_case(BasicIPhreeqc* p, const std::string& host, const std
     std::vector<std::string> ev; for (auto& x : p->punches) if (x != "/") ev.push_back(x);
     if (!exc && nerr == 0 && items != ev) { items.push_back("!events"); for (auto& s : ev) items.push_back(s); }
     if (nerr != 0 || exc) items = ev;
-  } else if (host == "hist") {
+  } else if (host == "hist" || host == "multi") {
     // the PUNCH call sequence per row (event stream; "/" between rows = fpunchf_end_row)
     items = p->punches;
   } else if (host == "print") {
